@@ -331,6 +331,10 @@ class Executor:
         self.solver = z3.Solver()
         self.solver.set('timeout', solver_timeout_ms)
         self.sstack = []                  # ids of asserted conds
+        self._alone = z3.Solver()
+        self._alone.set('timeout', 3000)
+        self._alone_cache = {}
+        self._alone_keep = []
         self.leaves = []
         self.stats = {'steps': 0, 'solver_checks': 0, 'solver_s': 0.0, 'forks': 0, 'merges': 0,
                       'fn_calls': {}, 'builtin_calls': {}, 'max_fuel_used': 0, 'unknown': 0}
@@ -339,6 +343,7 @@ class Executor:
         self.resolve_cache = {}
         self.trace = bool(os.environ.get('MIRSYM_TRACE'))
         self.mux_cache = {}
+        self.concrete_libm = False
         self.progress = int(os.environ.get('MIRSYM_PROGRESS', '0'))
 
     # -------------------------------------------------------------------------------- solver
@@ -375,6 +380,23 @@ class Executor:
             self.stats['unknown'] += 1
             return True
         return r == z3.sat
+
+    def unsat_alone(self, cond):
+        """Is cond unsatisfiable on its own (without the path condition)?  Cheap pre-check for overflow / bounds
+        assertions whose operands carry their own range information."""
+        k = cond.get_id()
+        r = self._alone_cache.get(k)
+        if r is None:
+            t = time.time()
+            self._alone.push()
+            self._alone.add(cond)
+            res = self._alone.check()
+            self._alone.pop()
+            self.stats['solver_s'] += time.time() - t
+            r = (res == z3.unsat)
+            self._alone_cache[k] = r
+            self._alone_keep.append(cond)
+        return r
 
     def model(self, pc, extra=None):
         s = z3.Solver()
@@ -655,7 +677,7 @@ class Executor:
             if ok is False:
                 raise PanicExc('assert failed: ' + msg)
             bad = to_z3bool(b_not(ok))
-            if self.sat(st, bad):
+            if not self.unsat_alone(bad) and self.sat(st, bad):
                 lf = Leaf('panic', st, msg='assert failed: ' + msg, where=self.where(st))
                 lf.pc.append(bad)
                 self.leaves.append(lf)
@@ -1261,6 +1283,9 @@ class Executor:
             return Int('char', ord(s)), True
         if text.startswith('{alloc'):
             return Opaque('alloc', text), True
+        sc = STD_CONSTS.get(text) or STD_CONSTS.get(text.replace('core::', 'std::'))
+        if sc is not None:
+            return mk_flt(sc[0], sc[1]), True
         if text.startswith('ZeroSized: '):
             t = text[11:].strip()
             if t.startswith('{closure@'):
@@ -1484,6 +1509,19 @@ class Executor:
         raise ExecError('cast kind %s to %s of %r' % (kind, ty, v))
 
 
+import math as _math
+STD_CONSTS = {}
+for _t in ('f64', 'f32'):
+    for _n, _v in (('PI', _math.pi), ('TAU', _math.tau), ('E', _math.e), ('FRAC_PI_2', _math.pi / 2),
+                   ('FRAC_PI_4', _math.pi / 4), ('LN_2', _math.log(2)), ('SQRT_2', _math.sqrt(2))):
+        STD_CONSTS['std::%s::consts::%s' % (_t, _n)] = (_t, _v)
+        STD_CONSTS['%s::consts::%s' % (_t, _n)] = (_t, _v)
+STD_CONSTS['f64::EPSILON'] = ('f64', 2.220446049250313e-16)
+STD_CONSTS['f64::MAX'] = ('f64', 1.7976931348623157e308)
+STD_CONSTS['f64::INFINITY'] = ('f64', float('inf'))
+STD_CONSTS['f64::NAN'] = ('f64', float('nan'))
+
+
 def env_equal(a, b):
     if a.keys() != b.keys():
         return False
@@ -1647,9 +1685,29 @@ def rust_unescape_bytes(s):
 _CMP = {'Eq', 'Ne', 'Lt', 'Le', 'Gt', 'Ge'}
 
 
+def _ite_consts(x):
+    """If x is a symbolic Int of the form ite(c, k1, k2) with constant branches: (c, k1, k2)"""
+    v = x.v
+    if isinstance(v, int) or not z3.is_app_of(v, z3.Z3_OP_ITE):
+        return None
+    c, t, e = v.children()
+    if z3.is_bv_value(t) and z3.is_bv_value(e):
+        return c, norm_int(x.ty, t.as_long()), norm_int(x.ty, e.as_long())
+    return None
+
+
 def int_binop(op, a, b):
     ty = a.ty
     w, s = INT_TYPES[ty]
+    if op in ('Mul', 'MulWithOverflow', 'MulUnchecked', 'Div', 'Rem') and not (a.concrete and b.concrete):
+        # multiplication by a two-valued constant selector: distribute (keeps the solver's work linear)
+        for x, y, swap in ((a, b, False), (b, a, True)):
+            ic = _ite_consts(y)
+            if ic is not None and not (swap and op in ('Div', 'Rem')):
+                c, k1, k2 = ic
+                r1 = int_binop(op, x, Int(y.ty, k1)) if not swap else int_binop(op, Int(y.ty, k1), x)
+                r2 = int_binop(op, x, Int(y.ty, k2)) if not swap else int_binop(op, Int(y.ty, k2), x)
+                return ite_value(c, r1, r2)
     if op in ('Shl', 'Shr', 'ShlUnchecked', 'ShrUnchecked'):
         return int_shift(op, a, b)
     if a.ty != b.ty:
